@@ -177,7 +177,11 @@ func (b *Builder) build(t reflect.Type, depth int, field string) reflect.Value {
 		for i := 0; i < t.Len(); i++ {
 			v.Index(i).Set(b.build(t.Elem(), depth+1, field))
 		}
-	case reflect.Interface, reflect.Func, reflect.Chan, reflect.UnsafePointer:
+	case reflect.UnsafePointer:
+		if b.C.Int(0, 2, "unsafe-ptr") != 0 {
+			v.SetPointer(unsafe.Pointer(new(int64)))
+		}
+	case reflect.Interface, reflect.Func, reflect.Chan:
 		// left zero
 	}
 	return v
@@ -536,9 +540,35 @@ func Regions(v reflect.Value) []Region {
 			if !v.IsNil() {
 				walk(v.Elem(), path)
 			}
+		case reflect.UnsafePointer:
+			if lo := v.Pointer(); lo != 0 {
+				out = append(out, Region{Path: path, Kind: "unsafeptr", Lo: lo, Hi: lo + 1, Type: v.Type()})
+			}
 		}
 	}
 	walk(v, "")
+	return out
+}
+
+// WithoutUnsafe drops the targets of unsafe.Pointer values (which no generated code could
+// copy) from a region list; OnlyUnsafe keeps just those.
+func WithoutUnsafe(rs []Region) []Region {
+	var out []Region
+	for _, r := range rs {
+		if r.Kind != "unsafeptr" {
+			out = append(out, r)
+		}
+	}
+	return out
+}
+
+func OnlyUnsafe(rs []Region) []Region {
+	var out []Region
+	for _, r := range rs {
+		if r.Kind == "unsafeptr" {
+			out = append(out, r)
+		}
+	}
 	return out
 }
 
